@@ -183,7 +183,8 @@ if __name__ == "__main__":
         "the dialer's knowledge is whatever the peerstore holds: identify push is switched off on both hosts so that the harness controls it (unknown / accurate / stale snapshot / arbitrary) together with NewStream's own AddProtocols",
         "application bytes written on the optimistic path before the handshake completed are not themselves a well-formed multistream token naming a protocol the listener serves (the payload is 9 bytes: 0x00 or 0x20, then the nonce)",
         "concurrent opens: the handler table is fixed during a batch; the interleaving of peerstore reads/AddProtocols is a free parameter of the model (every subset), scope limits inside a concurrent batch are modelled in index order only (the generator keeps limited protocols out of concurrent batches)",
-        "limited (relayed) connections are not exercised here (C12 covers the limited/direct distinction); all opens go over one direct connection",
+        "limited vs direct: one world reaches the listener only through a circuit-v2 relay (limited connection); the model has the gate of Swarm/Conn.NewStream only (limited and context without WithAllowLimitedConn -> the open fails); waiting for / upgrading to a direct connection is C12's subject; every open goes over the single connection between the two hosts",
+        "p2p/host/blank is outside the model; a fixed probe records its traces under a refusing protocol scope and the monitor judges them (known_findings/C07.json)",
     ]
     standard_flow(ctx, dict(
         coq_targets=["c07/Properties.vo", "c07/Extract.vo"],
